@@ -23,7 +23,7 @@ COMPONENTS = dict(real=["hio.core.tcp.clienting.Client/ClientTls", "hio.core.tcp
 ASSUMPTIONS = ["fake kernel follows Linux TCP semantics as documented in hiosim/net.py", "bounded liveness: delivery completes within the drain bound once faults stop"]
 PROBES = ["partial_send_then_continue", "tls_case", "multi_connection", "bs_1", "capacity_backpressure", "wirelog_compared", "empty_payload"]
 BOUNDS = dict(quick=dict(conns=3, payloads=5, bytes=65536), thorough=dict(conns=3, payloads=8, bytes=65536))
-TIERS = dict(quick=dict(cases=8000, wall=45.0), thorough=dict(cases=500000, wall=420.0))
+TIERS = dict(quick=dict(cases=12000, wall=60.0), thorough=dict(cases=500000, wall=420.0))
 SIM_TIME_UNIT = "net steps"
 
 
